@@ -218,6 +218,7 @@ type MapperCall struct {
 type mapperVerdict struct {
 	kind  int // 0 ok, 1 error, 2 miscount
 	delta int
+	err   error
 }
 
 type simColumn struct {
